@@ -1,5 +1,8 @@
 #!/bin/bash
 # Offline build of the harness and of the ska CLI from /repo's current working tree.
+# setup.sh          : library + every property binary (a binary that does not compile against the
+#                     tree's API is reported and skipped; the others are still built)
+# setup.sh <cNN>    : library + that property's binary only
 set -u
 cd "$(dirname "$0")"
 export CARGO_NET_OFFLINE=true
@@ -7,7 +10,19 @@ ROOT="$(pwd)"
 mkdir -p "$ROOT/target" "$ROOT/evidence"
 # harness (depends on the ska library by path => rebuilt when /repo/src changes)
 cp -n /repo/Cargo.lock "$ROOT/harness/Cargo.lock" 2>/dev/null || true
-( cd "$ROOT/harness" && cargo build --release --offline --target-dir "$ROOT/target/harness" ) >"$ROOT/target/build-harness.log" 2>&1 || { tail -30 "$ROOT/target/build-harness.log"; echo "BUILD-FAILED harness"; exit 2; }
+LOG="$ROOT/target/build-harness.log"
 # the CLI exactly as users build it (release profile of /repo), hooks on
 ( cd /repo && cargo build --release --offline --features verif-hooks --target-dir "$ROOT/target/cli" ) >"$ROOT/target/build-cli.log" 2>&1 || { tail -30 "$ROOT/target/build-cli.log"; echo "BUILD-FAILED ska"; exit 2; }
-echo "setup ok"
+if [ $# -ge 1 ]; then
+  ( cd "$ROOT/harness" && cargo build --release --offline --target-dir "$ROOT/target/harness" --bin "$1" ) >"$LOG" 2>&1 || { grep -E "^error" -A 6 "$LOG" | head -30; echo "BUILD-FAILED harness binary $1 (does not compile against this tree)"; exit 2; }
+  echo "setup ok"; exit 0
+fi
+if ( cd "$ROOT/harness" && cargo build --release --offline --target-dir "$ROOT/target/harness" ) >"$LOG" 2>&1; then
+  echo "setup ok"; exit 0
+fi
+# something does not compile: the library is needed by all; binaries are tried one by one
+( cd "$ROOT/harness" && cargo build --release --offline --target-dir "$ROOT/target/harness" --lib ) >"$LOG" 2>&1 || { tail -30 "$LOG"; echo "BUILD-FAILED harness library"; exit 2; }
+for i in $(seq -w 1 20); do
+  ( cd "$ROOT/harness" && cargo build --release --offline --target-dir "$ROOT/target/harness" --bin "c$i" ) >>"$LOG" 2>&1 || { echo "BUILD-FAILED harness binary c$i (does not compile against this tree; its check will report INCONCLUSIVE)"; rm -f "$ROOT/target/harness/release/c$i"; }
+done
+echo "setup ok (with skipped binaries)"
